@@ -33,6 +33,7 @@ Truth(pk, flt, analysing) ==
      system_id |-> SystemId(pk[1]),
      run_trigger |-> TrigBytes(pk[1]),
      hbfs_seen |-> CountIf(an, LAMBDA r : Stop(r) = 1),
-     layer_staves |-> IF SystemId(pk[1]) = 32 THEN Uniq(Map(an, LAMBDA r : << Layer(FeeId(r)), Stave(FeeId(r)) >>), 1, << >>) ELSE << >>,
+     layer_staves |-> IF an # << >> /\ SystemId(an[1]) = 32 THEN      \* (the detector of an analysis is that of the first packet it is given: behind a filter, the first selected one)
+                      Uniq(Map(an, LAMBDA r : << Layer(FeeId(r)), Stave(FeeId(r)) >>), 1, << >>) ELSE << >>,
      trig |-> [n \in 0..31 |-> CountIf(an, LAMBDA r : TrigBit(r, n))] ]
 ================================================================================
